@@ -117,6 +117,7 @@ class X86:
         self.flags = {"CF": UNDEF, "OF": UNDEF, "ZF": UNDEF, "SF": UNDEF}
         self.unread = {"CF": False, "OF": False}
         self.lost_carries = []
+        self.drop_proof_s = 5
         self.proved_carries = 0
         self.pc = []
         self.idx = 0
@@ -251,7 +252,9 @@ class X86:
         if f in self.unread and self.unread[f]:
             old = self.flags[f]
             if isinstance(old, LV) and not (old.is_const() and old.c == 0):
-                ok = self.lin.prove_zero(old, "dropped " + f)
+                # in a forked child with a hard deadline: z3 does not always honour its time limit on these contexts, and a carry that is NOT
+                # provably zero must end up in lost_carries rather than hang the run
+                ok = self.lin.prove_zero(old, "dropped " + f, hard_s=self.drop_proof_s)
                 if ok:
                     self.lin.assume_zero(old, "carry dropped at %#x proved zero" % self.cur)
                     self.proved_carries += 1
